@@ -26,6 +26,7 @@ import (
 	"google.golang.org/protobuf/encoding/protojson"
 	"google.golang.org/protobuf/encoding/protowire"
 	"google.golang.org/protobuf/proto"
+	"google.golang.org/protobuf/reflect/protoreflect"
 )
 
 // StreamDecoder is used to decode messages from a stream. This is used
@@ -247,8 +248,9 @@ func (s StrictProtoCodec) Unmarshal(data []byte, msg any) error {
 	if err := proto.Unmarshal(data, protoMsg); err != nil {
 		return err
 	}
-	// We are being strict and thus disallow any unrecognized fields.
-	unrecognized := protoMsg.ProtoReflect().GetUnknown()
+	// We are being strict and thus disallow any unrecognized fields,
+	// also inside of nested messages.
+	unrecognized := findUnrecognized(protoMsg.ProtoReflect())
 	if len(unrecognized) == 0 {
 		return nil
 	}
@@ -283,6 +285,38 @@ func (s StrictProtoCodec) Unmarshal(data []byte, msg any) error {
 		return fmt.Errorf("message data included field %d that uses unknown wire type %d", num, typ)
 	}
 	return fmt.Errorf("message data includes unrecognized field %d with %s wire type", num, wireType)
+}
+
+// findUnrecognized returns the unrecognized fields of the given message or,
+// if it has none, those of the first nested message found to have any.
+func findUnrecognized(msg protoreflect.Message) protoreflect.RawFields {
+	if unrecognized := msg.GetUnknown(); len(unrecognized) > 0 {
+		return unrecognized
+	}
+	var unrecognized protoreflect.RawFields
+	msg.Range(func(field protoreflect.FieldDescriptor, val protoreflect.Value) bool {
+		switch {
+		case field.IsMap():
+			if field.MapValue().Message() == nil {
+				return true
+			}
+			val.Map().Range(func(_ protoreflect.MapKey, entry protoreflect.Value) bool {
+				unrecognized = findUnrecognized(entry.Message())
+				return len(unrecognized) == 0
+			})
+		case field.Message() == nil:
+			return true
+		case field.IsList():
+			list := val.List()
+			for i := 0; i < list.Len() && len(unrecognized) == 0; i++ {
+				unrecognized = findUnrecognized(list.Get(i).Message())
+			}
+		default:
+			unrecognized = findUnrecognized(val.Message())
+		}
+		return len(unrecognized) == 0
+	})
+	return unrecognized
 }
 
 func (s StrictProtoCodec) MarshalAppend(b []byte, msg any) ([]byte, error) {
